@@ -344,7 +344,7 @@ DOCS = ['--- a: 1\n', '--- &a [x]\n', '--- *a\n', '--- [&a y, *a]\n', '%TAG !e! 
         '--- "quoted"\n...\n', '--- !!str\n', '---\n', '%TAG ! tag:x.org,2000:\n--- !loc v\n', '--- !loc v\n', '--- {k: &b {j: 1}, l: *b}\n',
         '--- &a s\n', '--- &b {j: 1}\n', "--- 'sq'\n", '--- |\n lit\n',
         # a plain root scalar followed by blank / space-only lines: the next document marker still ends it
-        '--- pl\n\n', 'pl two\n \n\n']
+        '--- pl\n\n', '--- pl two\n \n\n']
 # documents after which a '%' line cannot be taken for the continuation of a plain scalar: a directive may follow them
 # directly (both back-ends accept that), so streams are also built without the explicit document end in between
 CLOSED = {1, 3, 7, 8, 9, 10, 13, 15, 16, 17}
